@@ -114,7 +114,8 @@ theorem step_openName_slash (m : Method) (st : RS) (h : st.mode = .openName) :
   simp [step, h, isNameChar]
 
 theorem step_openName_gt (m : Method) (st : RS) (h : st.mode = .openName) :
-    step m st '>' = some { st with mode := .text, buf := [], out := st.out ++ startEvents m st.buf [] } := by
+    step m st '>' = some { st with mode := (if isRawElem m st.buf then .raw else .text), buf := [],
+                                   out := st.out ++ startEvents m st.buf [] } := by
   simp [step, h, isNameChar]
 
 theorem step_attrName_eq (m : Method) (st : RS) (h : st.mode = .attrName) (hn : st.aname ≠ []) :
@@ -144,7 +145,8 @@ theorem step_inTag_slash (m : Method) (st : RS) (h : st.mode = .inTag) :
   simp [step, h]
 
 theorem step_inTag_gt (m : Method) (st : RS) (h : st.mode = .inTag) :
-    step m st '>' = some { st with mode := .text, buf := [], out := st.out ++ startEvents m st.tag st.attrs } := by
+    step m st '>' = some { st with mode := (if isRawElem m st.tag then .raw else .text), buf := [],
+                                   out := st.out ++ startEvents m st.tag st.attrs } := by
   simp [step, h]
 
 theorem step_slash_gt (m : Method) (st : RS) (h : st.mode = .slash) :
@@ -212,14 +214,21 @@ theorem run_tagStart (m : Method) (st : RS) (t : Name) (ht : IsName t) (hm : st.
     rw [run_openName_chars m cs (fun x hx => hall x (List.mem_cons_of_mem _ hx)) _ rfl]
     exact ⟨_, rfl, Or.inl ⟨rfl, by simp, rfl⟩, rfl⟩
 
-theorem run_gt (m : Method) (st : RS) (t : Name) (acc : List (Name × List Char)) (hst : InStart st t acc) :
-    ∃ st', run m st ['>'] = some st' ∧ st'.mode = .text ∧ st'.buf = [] ∧
+theorem run_gt' (m : Method) (st : RS) (t : Name) (acc : List (Name × List Char)) (hst : InStart st t acc) :
+    ∃ st', run m st ['>'] = some st' ∧ st'.mode = (if isRawElem m t then .raw else .text) ∧ st'.buf = [] ∧
       st'.out = st.out ++ startEvents m t acc := by
   rcases hst with ⟨hm, hb, ha⟩ | ⟨hm, ht, ha⟩
   · rw [run_cons, step_openName_gt m st hm]
-    exact ⟨_, rfl, rfl, rfl, by simp [hb, ha]⟩
+    exact ⟨_, rfl, by simp [hb], rfl, by simp [hb, ha]⟩
   · rw [run_cons, step_inTag_gt m st hm]
-    exact ⟨_, rfl, rfl, rfl, by simp [ht, ha]⟩
+    exact ⟨_, rfl, by simp [ht], rfl, by simp [ht, ha]⟩
+
+theorem run_gt (m : Method) (st : RS) (t : Name) (acc : List (Name × List Char)) (hst : InStart st t acc)
+    (hraw : isRawElem m t = false) :
+    ∃ st', run m st ['>'] = some st' ∧ st'.mode = .text ∧ st'.buf = [] ∧
+      st'.out = st.out ++ startEvents m t acc := by
+  obtain ⟨s, h1, h2, h3, h4⟩ := run_gt' m st t acc hst
+  exact ⟨s, h1, by simpa [hraw] using h2, h3, h4⟩
 
 theorem run_slash_gt (m : Method) (st : RS) (t : Name) (acc : List (Name × List Char)) (hst : InStart st t acc) :
     ∃ st', run m st ['/', '>'] = some st' ∧ st'.mode = .text ∧ st'.buf = [] ∧
@@ -278,10 +287,10 @@ theorem run_tagHead (m : Method) (st : RS) (t : Name) (a : List (Name × List Ch
 
 /-- what the reader needs of a raw token: names are names, character data has no `<`,
     raw attribute values no `"` -/
-def RTokOk : RTok → Prop
+def RTokOk (m : Method) : RTok → Prop
   | .text raw => ∀ c ∈ raw, c ≠ '<'
-  | .open t a => IsName t ∧ RawAttrsOk a
-  | .empty t a => IsName t ∧ RawAttrsOk a
+  | .open t a => (IsName t ∧ RawAttrsOk a) ∧ isRawElem m t = false
+  | .empty t a => (IsName t ∧ RawAttrsOk a) ∧ isRawElem m t = false
   | .close t => IsName t
 
 theorem startEvents_nonvoid (m : Method) (t : Name) (a : List (Name × List Char))
@@ -295,7 +304,7 @@ theorem startEvents_void (t : Name) (a : List (Name × List Char))
   rw [h]; rfl
 
 /-- the reader over one raw token, from character-data mode -/
-theorem run_rtok (m : Method) (tok : RTok) (hok : RTokOk tok) (st : RS) (hm : st.mode = .text) :
+theorem run_rtok (m : Method) (tok : RTok) (hok : RTokOk m tok) (st : RS) (hm : st.mode = .text) :
     ∃ st', run m st (emitRTok m tok) = some st' ∧ st'.mode = .text ∧
       (st'.out, st'.buf) = absorb m (st.out, st.buf) tok := by
   cases tok with
@@ -305,13 +314,15 @@ theorem run_rtok (m : Method) (tok : RTok) (hok : RTokOk tok) (st : RS) (hm : st
     obtain ⟨s1, hr, hm1, hb1, ho1⟩ := run_close m st t hok hm
     exact ⟨s1, hr, hm1, by simp [absorb, hb1, ho1]⟩
   | «open» t a =>
+    obtain ⟨hok, hnr⟩ := hok
     obtain ⟨s1, hr1, hs1, ho1⟩ := run_tagHead m st t a hok.1 hok.2 hm
-    obtain ⟨s2, hr2, hm2, hb2, ho2⟩ := run_gt m s1 t _ hs1
+    obtain ⟨s2, hr2, hm2, hb2, ho2⟩ := run_gt m s1 t _ hs1 hnr
     refine ⟨s2, ?_, hm2, by simp [absorb, hb2, ho2, ho1]⟩
     simp only [emitRTok]
     rw [← List.append_assoc, ← List.cons_append, run_append, hr1]
     exact hr2
   | empty t a =>
+    obtain ⟨hok, hnr⟩ := hok
     obtain ⟨s1, hr1, hs1, ho1⟩ := run_tagHead m st t a hok.1 hok.2 hm
     -- the three ways an element without content is written
     have hslash : ∃ st', run m st ('<' :: (t ++ (attrsRaw a ++ ['/', '>']))) = some st' ∧ st'.mode = .text ∧
@@ -328,7 +339,7 @@ theorem run_rtok (m : Method) (tok : RTok) (hok : RTokOk tok) (st : RS) (hm : st
         ∃ st', run m st ('<' :: (t ++ (attrsRaw a ++ '>' :: '<' :: '/' :: (t ++ ['>'])))) = some st' ∧
         st'.mode = .text ∧ (st'.out, st'.buf) = absorb m (st.out, st.buf) (.empty t a) := by
       intro hnv
-      obtain ⟨s2, hr2, hm2, hb2, ho2⟩ := run_gt m s1 t _ hs1
+      obtain ⟨s2, hr2, hm2, hb2, ho2⟩ := run_gt m s1 t _ hs1 hnr
       obtain ⟨s3, hr3, hm3, hb3, ho3⟩ := run_close m s2 t hok.1 hm2
       refine ⟨s3, ?_, hm3, ?_⟩
       · have e : '<' :: (t ++ (attrsRaw a ++ '>' :: '<' :: '/' :: (t ++ ['>'])))
@@ -343,7 +354,7 @@ theorem run_rtok (m : Method) (tok : RTok) (hok : RTokOk tok) (st : RS) (hm : st
         st'.mode = .text ∧ (st'.out, st'.buf) = absorb m (st.out, st.buf) (.empty t a) := by
       intro hmh hv
       subst hmh
-      obtain ⟨s2, hr2, hm2, hb2, ho2⟩ := run_gt .html s1 t _ hs1
+      obtain ⟨s2, hr2, hm2, hb2, ho2⟩ := run_gt .html s1 t _ hs1 hnr
       refine ⟨s2, ?_, hm2, by simp [absorb, hb2, ho2, ho1, startEvents_void t _ hv]⟩
       rw [← List.append_assoc, ← List.cons_append, run_append, hr1]; exact hr2
     cases m with
@@ -360,7 +371,7 @@ theorem run_rtok (m : Method) (tok : RTok) (hok : RTokOk tok) (st : RS) (hm : st
       · rename_i hv; exact hpair (fun _ => by simpa using hv)
 
 /-- the reader over a sequence of raw tokens -/
-theorem run_rtoks (m : Method) (toks : List RTok) (hok : ∀ t ∈ toks, RTokOk t) :
+theorem run_rtoks (m : Method) (toks : List RTok) (hok : ∀ t ∈ toks, RTokOk m t) :
     ∀ st : RS, st.mode = .text →
     ∃ st', run m st (toks.flatMap (emitRTok m)) = some st' ∧ st'.mode = .text ∧
       (st'.out, st'.buf) = absorbAll m (st.out, st.buf) toks := by
@@ -375,7 +386,7 @@ theorem run_rtoks (m : Method) (toks : List RTok) (hok : ∀ t ∈ toks, RTokOk 
     · rw [he2, he1]; rfl
 
 /-- **the reader accepts the serializers' output language** and reads it as `absorbAll` says -/
-theorem readDoc_rtoks (m : Method) (toks : List RTok) (hok : ∀ t ∈ toks, RTokOk t) :
+theorem readDoc_rtoks (m : Method) (toks : List RTok) (hok : ∀ t ∈ toks, RTokOk m t) :
     readDoc m (toks.flatMap (emitRTok m)) =
       some ((absorbAll m ([], []) toks).1 ++ flushText (absorbAll m ([], []) toks).2) := by
   obtain ⟨st, hr, hm, he⟩ := run_rtoks m toks hok initRS rfl
